@@ -1087,7 +1087,7 @@ def acc_post(c, p):
     return "true" if ok else "false"
 
 
-Q(name="e2_endpoint_accept_routing", props=["C09", "C08"], func=r"endpoint\.rs:\d+:1: \d+:14>::accept$",
+Q(name="e2_endpoint_accept_routing", props=["C09", "C08", "C03"], func=r"endpoint\.rs:\d+:1: \d+:14>::accept$",
   pure=[r"cids_exhausted$"], ignore_untranslatable=r"^loop at", allowed_panics=r"abort|expect_failed|attempt to compute",
   functions=["Endpoint::accept"], pre=lambda c: "true", post=acc_post,
   bounds="every path of accept up to the replay of buffered datagrams (paths entering that loop are outside; they are past the routing decisions): whenever the attempt is abandoned before a connection exists (stale, CIDs exhausted, Initial fails authentication) the Initial route for its destination CID is removed; whenever a connection is created the route is re-pointed to its handle; crypto, slab, hash maps opaque",
